@@ -200,6 +200,9 @@ def make_distance_matrix_from_adjacency_matrix(AG):
         # Accept every SciPy sparse format (csgraph itself only takes CSR, CSC and
         # LIL); work on a copy so that the caller's matrix is left alone.
         AG = sps.csr_matrix(AG, copy=True)
+        # An explicitly stored zero is "no edge", as in the dense form of the same
+        # matrix; csgraph would count it as an edge of the unweighted graph.
+        AG.eliminate_zeros()
 
     # Compile distance matrix of the graph based on its shortest path
     # lengths.
